@@ -22,7 +22,28 @@ fn in_bounds(s: &str) -> bool {
     }
     let b = s.as_bytes();
     let n = b.len();
-    let mut budget: u32 = 600;
+    // (the budget shrinks with the largest exponent-notation literal and the longest digit run, as in c11.bound_powers: no input
+    // denotes more than ~40 000 digits)
+    let mut emax: u32 = 0;
+    let mut longest: u32 = 1;
+    {
+        let mut j = 0;
+        while j < n {
+            if b[j].is_ascii_digit() {
+                let d0 = j;
+                while j < n && b[j].is_ascii_digit() {
+                    j += 1;
+                }
+                longest = longest.max((j - d0) as u32);
+                if d0 >= 1 && (b[d0 - 1] == b'e' || b[d0 - 1] == b'E' || ((b[d0 - 1] == b'+' || b[d0 - 1] == b'-') && d0 >= 2 && (b[d0 - 2] == b'e' || b[d0 - 2] == b'E'))) {
+                    emax = emax.max(s[d0..j.min(d0 + 3)].parse().unwrap_or(999));
+                }
+            } else {
+                j += 1;
+            }
+        }
+    }
+    let mut budget: u32 = (40000 / (emax + longest + 1)).clamp(2, 600);
     let mut i = 0;
     while i < n {
         let c = b[i];
